@@ -383,10 +383,12 @@ pub fn mass(args: &[String]) {
 }
 
 // ------------------------------------------------------------------------------------------------------------ C01
-fn tol_of(mode: usize, rtol: f64, atol: f64, n: usize) -> (Tolerance, Tolerance, Vec<f64>, Vec<f64>) {
+fn tol_of(mode: usize, rtol0: f64, atol0: f64, scale: f64, n: usize) -> (Tolerance, Tolerance, Vec<f64>, Vec<f64>) {
+    let (rtol, atol) = (rtol0 * scale, atol0 * scale);
     match mode {
-        // per-component atol: a loose first component next to tight ones (each component is held to its own scale)
-        1 => { let av: Vec<f64> = (0..n).map(|i| if i == 0 { (atol * 1e4).min(1e-2) } else { atol }).collect(); (rtol.into(), Tolerance::Vector(av.clone()), vec![rtol; n], av) }
+        // per-component atol: a loose first component next to tight ones (each component is held to its own scale);
+        // the cap applies to the unscaled value so that `scale` tightens every component alike
+        1 => { let av: Vec<f64> = (0..n).map(|i| if i == 0 { (atol0 * 1e4).min(1e-2) * scale } else { atol }).collect(); (rtol.into(), Tolerance::Vector(av.clone()), vec![rtol; n], av) }
         2 => (0.0.into(), (rtol * 0.1).into(), vec![0.0; n], vec![rtol * 0.1; n]),           // pure absolute
         3 => (rtol.into(), 0.0.into(), vec![rtol; n], vec![0.0; n]),                           // pure relative
         _ => (rtol.into(), atol.into(), vec![rtol; n], vec![atol; n]),
@@ -418,7 +420,7 @@ pub fn accuracy(args: &[String]) {
         let y0 = p.y0();
         let use_teval = rng.chance(0.3);
         let run = |scale: f64| -> Option<(Solution, Vec<f64>, Vec<f64>)> {
-            let (rt, at, rv, av) = tol_of(mode, rtol * scale, atol * scale, n);
+            let (rt, at, rv, av) = tol_of(mode, rtol, atol, scale, n);
             let mut o = Options::builder().method(method).rtol(rt).atol(at).build();
             if use_teval { o.t_eval = Some((1..=7).map(|k| xend * k as f64 / 7.0).collect()); }
             let q = Prob { user_jac: p.user_jac, ..Prob::new(kind) };
